@@ -185,6 +185,8 @@ def search(pid, ob, repo, scratch):
         ops = ['dom.preorder_after_edits']
     if pid == 'C11' and fn.startswith('info::attr_value_from_name'):
         ops = ['info.attr_norm']
+    if fn.startswith('dom::XmlDocument::create_'):
+        ops = ['dom.factory']
     if fn.startswith('dom::TryFrom<XmlNode>') or fn.startswith('dom::From<Rc<XmlItem>>'):
         ops = ['dom.attr_owner']
     if pid in ('C12', 'C13') and fn.startswith('XmlElement::append_attribute'):
